@@ -27,7 +27,7 @@ Definition w7 : wstate nat :=
 
 Theorem none_operand_refuted :
   exists (w : wstate nat) f,
-    write_file w = Complete f /\ ~ wf_file f /\
+    write_file None w = Complete f /\ ~ wf_file f /\
     In "VOLU 14 EQUA MINUS 1 1 INTE 1 None ENDV // (10, 1)"%string (print_file f).
 Proof.
   exists w7. eexists. split; [vm_compute; reflexivity|]. split.
@@ -56,22 +56,22 @@ Theorem helper_plane_refuted :
   exists (surfs : stable nat) vols u0 u1,
     refs_ok surfs vols /\ u0 <> u1 /\ In u0 (keys surfs) /\ In u1 (keys surfs) /\
     ~ helpers_survive Nat.eqb false surfs u0 u1 /\
-    (exists surfs' vols' sl,
-       prune Nat.eqb false surfs vols u0 u1 = Ok (surfs', vols') /\
-       write_file (w8 surfs' vols') = Died true sl EKey /\
+    (exists surfs' vols' ren' sl,
+       prune Nat.eqb false surfs vols u0 u1 = Ok (surfs', vols', ren') /\
+       write_file ren' (w8 surfs' vols') = Died true sl EKey /\
        print_outcome (Died true sl EKey) =
          (geometry_head ++ ["SURF 1 PLANEX 1.0"; "SURF 2 PLANEY 0.0"]%string)%list) /\
     (* the same tables are written completely and correctly without de-duplication *)
-    (exists surfs' vols' f,
-       prune Nat.eqb true surfs vols u0 u1 = Ok (surfs', vols') /\
-       write_file (w8 surfs' vols') = Complete f /\ wf_file f).
+    (exists surfs' vols' ren' f,
+       prune Nat.eqb true surfs vols u0 u1 = Ok (surfs', vols', ren') /\
+       write_file ren' (w8 surfs' vols') = Complete f /\ wf_file f).
 Proof.
   exists surfs8, vols8, 5, 6. split; [apply refs_okb_sound; vm_compute; reflexivity|].
   split; [lia|]. split; [vm_compute; tauto|]. split; [vm_compute; tauto|]. split.
   - unfold helpers_survive. vm_compute. intros [[H|[H|[H|[]]]] _]; discriminate.
   - split.
-    + eexists. eexists. eexists. split; [vm_compute; reflexivity|]. split; vm_compute; reflexivity.
-    + eexists. eexists. eexists. split; [vm_compute; reflexivity|]. split; [vm_compute; reflexivity|].
+    + eexists. eexists. eexists. eexists. split; [vm_compute; reflexivity|]. split; vm_compute; reflexivity.
+    + eexists. eexists. eexists. eexists. split; [vm_compute; reflexivity|]. split; [vm_compute; reflexivity|].
       apply wf_fileb_ok. vm_compute. reflexivity.
 Qed.
 
@@ -83,7 +83,7 @@ Definition w16 : wstate nat :=
 
 Theorem leading_zero_refuted :
   exists (w : wstate nat) f g c,
-    write_file w = Complete f /\ ~ wf_file f /\
+    write_file None w = Complete f /\ ~ wf_file f /\
     f_geomcomp f = Some g /\ map gc_name g = ["m01_-1.0"%string] /\
     f_comps f = Some c /\ map cb_name (snd c) = ["m1_-1.0"; "m0"]%string /\
     (* everything else about the tables is in order *)
@@ -95,21 +95,27 @@ Proof.
     split; [apply refs_okb_sound|apply sides_okb_sound]; vm_compute; reflexivity.
 Qed.
 
-(* ---- flagged surface that no written volume uses ------------------------------------------ *)
+(* ---- flagged surfaces after the repair of writeT4BoundCond: surface 5 is not used by any
+   volume (dropped), surface 3 was merged into surface 2 by de-duplication (listed as 2),
+   surface 2 itself is flagged with the same kind (listed once) ------------------------------ *)
 Definition w12 : wstate nat :=
-  mkW [(1, sph "2.0" 1); (5, plane "PLANEY" "7.0" ["5"] 5)] [(1, mkVol [] [1] None [] false)] []
-      [(1, cell_m1 true); (2, cell_void)] mat_h [] [(5, "*"%string)] false false false.
+  mkW [(1, sph "2.0" 1); (2, plane "PLANEX" "0.5" ["2"] 2); (5, plane "PLANEY" "7.0" ["5"] 5)]
+      [(1, mkVol [2] [1] None [] false)] []
+      [(1, cell_m1 true); (2, cell_void)] mat_h []
+      [(2, "*"%string); (3, "*"%string); (5, "*"%string)] false false false.
 
-Theorem bc_unwritten_surface_refuted :
-  exists (w : wstate nat) f,
-    write_file w = Complete f /\ ~ wf_file f /\
-    f_bc f = Some (1%N, [("REFLECTION"%string, 5)]) /\ surf_ids f = [1] /\
-    refs_ok (w_surfs w) (w_vols w) /\ sides_ok (w_vols w).
+Theorem bc_example :
+  exists f, write_file (Some [(1, 1); (2, 2); (3, 2); (5, 5)]) w12 = Complete f /\ wf_file f /\
+            f_bc f = Some (1%N, [("REFLECTION"%string, 2)]) /\ surf_ids f = [1; 2] /\
+  (* two kinds on coincident surfaces: the run raises after a well-formed file without the block *)
+  exists f' , write_file (Some [(1, 1); (2, 2); (3, 2); (5, 5)])
+                (mkW (w_surfs w12) (w_vols w12) [] (w_cells w12) mat_h []
+                     [(2, "*"%string); (3, "+"%string)] false false false) = Raised f' EValue /\
+              wf_file f' /\ f_bc f' = None.
 Proof.
-  exists w12. eexists. split; [vm_compute; reflexivity|]. split.
-  - apply wf_fileb_false. vm_compute. reflexivity.
-  - do 2 (split; [vm_compute; reflexivity|]).
-    split; [apply refs_okb_sound|apply sides_okb_sound]; vm_compute; reflexivity.
+  eexists. split; [vm_compute; reflexivity|]. split; [apply wf_fileb_ok; vm_compute; reflexivity|].
+  do 2 (split; [vm_compute; reflexivity|]).
+  eexists. split; [vm_compute; reflexivity|]. split; [apply wf_fileb_ok|]; vm_compute; reflexivity.
 Qed.
 
 (* ---- non-vacuity: a state with a union, an intersection, a duplicate surface, a skipped
@@ -133,21 +139,23 @@ Definition w_ex (surfs : stable nat) (vols : vtable) : wstate nat :=
        (10, mkCell "2" (Some 2) (Some "0.05") "0.05" false false); (3, cell_void)]
       [(1, mkMat [("H1", "1.0")] true); (2, mkMat [("O16", "1"); ("H1", "2")] true)]
       [(2, "0.05"%string, [("O16"%string, "1.666666666666667e-02"%string); ("H1"%string, "3.333333333333333e-02"%string)])]
-      [(2, "*"%string)] false false false.
+      [(4, "*"%string)] false false false.
 
 Theorem example_pipeline :
   refs_ok surfs_ex vols_ex /\ helpers_survive Nat.eqb false surfs_ex 7 8 /\
-  exists surfs' vols' f,
-    prune Nat.eqb false surfs_ex vols_ex 7 8 = Ok (surfs', vols') /\
+  exists surfs' vols' ren' f,
+    prune Nat.eqb false surfs_ex vols_ex 7 8 = Ok (surfs', vols', ren') /\
     wf_state (w_ex surfs' vols') /\
-    write_file (w_ex surfs' vols') = Complete f /\ wf_file f /\
+    write_file ren' (w_ex surfs' vols') = Complete f /\ wf_file f /\
+    f_bc f = Some (1%N, [("REFLECTION"%string, 2)]) /\
     List.length (f_vols f) = 4%nat /\ surf_ids f = [1; 2; 3; 7; 8].
 Proof.
   split; [apply refs_okb_sound; vm_compute; reflexivity|].
   split; [vm_compute; tauto|].
-  eexists. eexists. eexists. split; [vm_compute; reflexivity|].
+  eexists. eexists. eexists. eexists. split; [vm_compute; reflexivity|].
   split; [apply wf_stateb_sound; vm_compute; reflexivity|].
   split; [vm_compute; reflexivity|].
   split; [apply wf_fileb_ok; vm_compute; reflexivity|].
+  split; [vm_compute; reflexivity|].
   split; vm_compute; reflexivity.
 Qed.
